@@ -64,7 +64,8 @@ func addGuarded(s *Stack, src domains.BlockHeaderSource) (out string) {
 	return AddOutcome(s, src)
 }
 
-// C05 case: history line with x=<mode>:<i>:<k>   mode = kill | fault | cont
+// C05 case: history line with x=<mode>:<i>:<k>   mode = kill | ckill | fault | cont
+//   kill/fault/cont count repository write calls; ckill counts committed SQLite transactions (commit hook)
 // obs: pre:<rows>|crash:<outcome>/<rows after restart>|redeliver:<o,o,..>/<rows>|clean:<rows>
 //   (cont: the fault at (i,k) is followed by ingestion of the remaining headers before the restart;
 //    crash:<o_i,o_i+1,...>/<rows after restart>)
@@ -79,6 +80,25 @@ func runC05(c *Ctx) error {
 		return err
 	}
 	defer func() { s.Close() }()
+	// "ckill": the process dies at a TRANSACTION boundary below the repository layer: the first commitBudget
+	// commits after arming succeed, every later COMMIT is turned into a ROLLBACK by a SQLite commit hook.
+	var hookArmed bool
+	var commitBudget, commitsSeen int
+	var hookHit bool
+	hook := func() int {
+		if !hookArmed {
+			return 0
+		}
+		if commitsSeen < commitBudget {
+			commitsSeen++
+			return 0
+		}
+		hookHit = true
+		return 1
+	}
+	if err := s.HookCommits(4, hook); err != nil {
+		return err
+	}
 	rowsNow := func(m *Mat) (string, error) {
 		r, err := s.DumpHeaders()
 		if err != nil {
@@ -120,13 +140,24 @@ func runC05(c *Ctx) error {
 		if err != nil {
 			return false, err
 		}
-		fr.armed, fr.mode, fr.failAt, fr.count, fr.hit = true, mode, k, 0, false
-		if mode == "cont" {
-			fr.mode = "fault"
+		var outs []string
+		var hit bool
+		if mode == "ckill" {
+			hookArmed, commitBudget, commitsSeen, hookHit = true, k, 0, false
+			o := addGuarded(s, m.Src[i])
+			hookArmed = false
+			hit = hookHit
+			_ = o
+			outs = []string{"X"} // the process is dead: what Add answered is not observable
+		} else {
+			fr.armed, fr.mode, fr.failAt, fr.count, fr.hit = true, mode, k, 0, false
+			if mode == "cont" {
+				fr.mode = "fault"
+			}
+			outs = []string{addGuarded(s, m.Src[i])}
+			hit = fr.hit
+			fr.armed = false
 		}
-		outs := []string{addGuarded(s, m.Src[i])}
-		hit := fr.hit
-		fr.armed = false
 		if !hit {
 			return false, nil
 		}
@@ -141,6 +172,9 @@ func runC05(c *Ctx) error {
 			return false, fmt.Errorf("restart: %w", err)
 		}
 		s = ns
+		if err := s.HookCommits(4, hook); err != nil {
+			return false, err
+		}
 		s.SetForbidden(m.ForbiddenHashes())
 		crash, err := rowsNow(m)
 		if err != nil {
@@ -162,9 +196,17 @@ func runC05(c *Ctx) error {
 		c.Count("gen:" + tag)
 		return true, nil
 	}
+	zeroEvery := 0
 	all := func(h *History, tag string, modes []string, budget *int) error {
 		for i := range h.Subs {
 			for k := 0; k < 3; k++ {
+				if k == 0 && tag != "corpus" {
+					// "killed before the first write" leaves the store untouched: keep only every 6th such case
+					zeroEvery++
+					if zeroEvery%6 != 0 {
+						continue
+					}
+				}
 				for _, mode := range modes {
 					if *budget <= 0 {
 						return nil
@@ -222,7 +264,7 @@ func runC05(c *Ctx) error {
 			if _, err := doCase(h, p[0], i, k, "corpus"); err != nil {
 				return err
 			}
-		} else if err := all(h, "corpus", []string{"kill", "fault", "cont"}, &big); err != nil {
+		} else if err := all(h, "corpus", []string{"kill", "ckill", "fault", "cont"}, &big); err != nil {
 			return err
 		}
 	}
@@ -231,7 +273,7 @@ func runC05(c *Ctx) error {
 	var eerr error
 	ExhaustiveHistories(c.Pick(3, 4), []uint32{bitsW2, bitsW4}, func(h *History) {
 		if eerr == nil && budget > 0 {
-			eerr = all(h, "exhaustive", []string{"kill"}, &budget)
+			eerr = all(h, "exhaustive", []string{"kill", "ckill"}, &budget)
 		}
 	})
 	if eerr != nil {
@@ -241,7 +283,7 @@ func runC05(c *Ctx) error {
 	budget = c.Pick(1600, 30000)
 	for n := 0; budget > 0 && n < c.Pick(400, 8000); n++ {
 		o := GenOpts{N: 3 + c.Rng.Intn(c.Pick(8, 14)), PUnknown: 0.05, PLate: 0.08, PDup: 0.05, PForbidden: 0.05, Positive: true, Deep: true}
-		if err := all(GenHistory(c.Rng, o), "random-deep", []string{"kill", "fault", "cont"}, &budget); err != nil {
+		if err := all(GenHistory(c.Rng, o), "random-deep", []string{"kill", "ckill", "fault", "cont"}, &budget); err != nil {
 			return err
 		}
 	}
